@@ -19,7 +19,9 @@ type HostObj struct {
 	Args starlark.Tuple
 }
 
-func (h *HostObj) String() string        { return fmt.Sprintf("host.%s%v", h.Name, h.Args) }
+// String must not descend into Args: a corrupted encoding can make a host object reachable from
+// its own arguments, and the interpreter's cycle detection does not extend through foreign types.
+func (h *HostObj) String() string        { return fmt.Sprintf("host.%s/%d", h.Name, len(h.Args)) }
 func (h *HostObj) Type() string          { return "hostobj" }
 func (h *HostObj) Freeze()               {}
 func (h *HostObj) Truth() starlark.Bool  { return true }
